@@ -319,6 +319,38 @@ pub fn property() -> Property {
             .boxed(),
         );
     }
+    subs.push(
+        sub(
+            "query",
+            "coordinate-sorted BAM / BCF / bgzipped VCF files with BAI, CSI or tabix indexes (C04's generator) × regions × poll script × worker count: the async reader's query returns the records the sync reader's query returns; one evaluation per region; non-trivial = ≥1 region with a non-empty answer",
+            super::c04::async_query_strategy,
+            super::c04::check_async_queries,
+            6_000,
+            80_000,
+        )
+        .with(|o| {
+            o.isolate = true;
+            o.hang_is_violation = true;
+            o.case_budget_s = 30;
+        })
+        .boxed(),
+    );
+    subs.push(
+        sub(
+            "query:cram",
+            "coordinate-sorted CRAM streams with small slices (C19's generator) × regions × poll script, queried through the expected CRAI: the async reader's query returns the records the sync reader's returns; one evaluation per region; non-trivial = ≥1 region with a non-empty answer",
+            super::c19::async_query_strategy,
+            super::c19::check_async_queries,
+            4_000,
+            60_000,
+        )
+        .with(|o| {
+            o.isolate = true;
+            o.hang_is_violation = true;
+            o.case_budget_s = 30;
+        })
+        .boxed(),
+    );
     Property {
         id: "C16",
         level: "exploration",
